@@ -272,3 +272,21 @@ def run(ctx):
             ctx.ob("C16.types-used", ok, "the inline value parser is not given (bound_types[col].0, bound_types[col].1): got (%s, %s)" % (term_str(ct)[-80:], term_str(un)[-80:]),
                    fn=nxt.path, construct="parse-args", where=nxt.where(bb), sample={"rule": "types-used", "coltype": term_str(ct)[-80:]})
     ctx.floor("C16.types-used", "inline value parser calls", n, 1)
+
+    # ---- the rebind does not depend on what the shim does with the parameters ---------------------------------
+    # "decoded with the types supplied by the most recent execution that carried them" needs the store of those types to happen for
+    # *every* execution that carries them.  Necessary condition on the call graph: the function that rewrites the table is reachable
+    # from the command loop itself (through the crate's own calls), not only from code the shim may or may not run (the parameter
+    # iterator's `next`, `into_iter`): a shim that answers an execution without looking at its parameters otherwise leaves the
+    # types of an older execution in place.
+    ctx.rule("C16.rebind-unconditional", "the function that rewrites the type table is reached from the command loop's own calls, not only from shim-driven iteration")
+    loop = prog.one(r"^MysqlIntermediary::<B, RW>::run$")
+    own = prog.reachable_fns([loop.path])
+    stores = sorted({b.path for n_, b, bb, t in muts})
+    for f in stores:
+        ctx.ob("C16.rebind-unconditional", f in own,
+               "the type table is rewritten in %s, which the command loop never calls itself: an execution whose parameters the shim does not iterate "
+               "does not store the types it carried, and a later execution without types is decoded with older ones" % f,
+               fn=f, construct="shim-driven-rebind", where=prog.bodies[f].where(0) if f in prog.bodies else None,
+               sample={"rule": "rebind-unconditional", "fn": f, "reached_from_loop": f in own})
+    ctx.floor("C16.rebind-unconditional", "functions that rewrite the type table", len(stores), 1)
